@@ -16,8 +16,8 @@ func init() {
 			"R6 the retry loop keeps retrying unless the client cancelled or the try duration is spent and ends in 502; " +
 			"R7 every attempt gets the rewound buffered body and buffering is decided by exactly {more than one host, retries enabled}; " +
 			"R8 the hash policies' first slot is a function of key and pool length only (deterministic hash of the whole key), and each policy keys by its documented request attribute — ip_hash by the client address with the port removed by net.SplitHostPort; " +
-			"R9 the full selection table of every policy and of the upstream's own Select for pools of up to four backends under every availability mask: only available backends are returned and nil exactly when none is available; first picks the earliest, least_conn a least-loaded one, the hash probe the cyclic-next one from hash(key) mod n, round_robin the next after its counter and an even rotation when all are up; ip_hash, uri_hash and header send equal keys (client address without port, URI, header value) to the same backend and different keys through the hash (this subsumes the former pattern rules R1-R3).",
-		notDecided: "evenness of random, and of round_robin when some backends are down; pools of more than four backends; hash stability across pool changes; timing of try_duration; outcome under all failure patterns.",
+			"R9 the full selection table of every policy and of the upstream's own Select for pools of up to five backends (three for least_conn, random and the key policies; seven and four in the thorough tier) under every availability mask: only available backends are returned and nil exactly when none is available; first picks the earliest, least_conn a least-loaded one, the hash probe the cyclic-next one from hash(key) mod n, round_robin the next after its counter and an even rotation when all are up; ip_hash, uri_hash and header send equal keys (client address without port, URI, header value) to the same backend and different keys through the hash (this subsumes the former pattern rules R1-R3).",
+		notDecided: "evenness of random, and of round_robin when some backends are down; pools larger than the enumerated ones; hash stability across pool changes; timing of try_duration; outcome under all failure patterns.",
 	})
 	register("C14", &propSpec{
 		technique: "static analysis: SSA increment/decrement pairing incl. defer and go-closure releases, module-wide atomic-access consistency, check-then-act atomicity classification; decision tables of Down/Full/Available on a host built by NewHost (E10); wrapper summaries for counter updates",
